@@ -1,6 +1,7 @@
 #!/bin/sh
 # Intake of one independently written change: confirm it in its scratch worktree, archive it under
 # seeded/, remove the worktree, run the quick check of its property against it.
+# INTAKE_PRIVATE=1: run the check on private bind-mounted copies (tools/pmutants.sh) instead of /repo itself.
 # Usage: tools/intake.sh <round, e.g. R4> <property> <slug> <what> <needs> <demo command...>
 round=$1; prop=$2; slug=$3; what=$4; needs=$5; shift 5
 id=$round-$prop
@@ -21,7 +22,8 @@ m={"id":d.split('/')[-1],"property":p,"what":w,"needs_to_manifest":n,
  "detected_by":"TBD","what_i_ran":"tools/intake.sh = tools/confirm_seeded.sh in the scratch worktree, then tools/mutants.sh "+d+"/patch.diff"}
 json.dump(m,open(d+'/meta.json','w'),indent=1)
 P
-res=$(tools/mutants.sh "$d/patch.diff" 2>&1 | grep -E "^(CAUGHT|MISSED|SKIP)")
+if [ -n "$INTAKE_NOCHECK" ]; then echo "ARCHIVED $d (check to be run separately)"; exit 0; fi
+if [ -n "$INTAKE_PRIVATE" ]; then res=$(tools/pmutants.sh -j 1 "$d/patch.diff" 2>&1 | grep -E "^(CAUGHT|MISSED|SKIP)"); else res=$(tools/mutants.sh "$d/patch.diff" 2>&1 | grep -E "^(CAUGHT|MISSED|SKIP)"); fi
 echo "$res"
 python3 - "$d" "$res" <<'P'
 import json,sys
